@@ -228,6 +228,36 @@ def main(pid, argv):
                         if cont != bool(el["recv"][0].get("continues")):
                             bad = "call %d: continues flag %s" % (ci, cont)
                             break
+            # model tie: each frame the generated code put on the wire decodes at its declared type and re-encodes to the same bytes
+            iface_name, _, members = idl
+            mt = {m[1]: m for m in members if m[0] == "M"}
+            et = {m[1]: m for m in members if m[0] == "X"}
+            al = ";".join("%s=%s" % (k.encode().hex(), G.dump_ty(v)) for k, v in aliases.items()) or "-"
+            tlines, tmeta = [], []
+            for ci, c in enumerate(calls):
+                if c["method"].startswith("@") or c["method"] == "Unimpl":
+                    continue
+                m = mt[c["method"]]
+                for gl in got_calls.get(ci, []):
+                    if gl[0]:
+                        for fr in bytes.fromhex(gl[0]).split(b"\x00")[:-1]:
+                            tlines.append("%s %s call %s" % (G.dump_ty(m[3]), al, fr.hex()))
+                            tmeta.append((ci, "call"))
+                    if gl[1]:
+                        for fr in bytes.fromhex(gl[1]).split(b"\x00")[:-1]:
+                            if c.get("error"):
+                                e = et[c["error"][0]]
+                                tlines.append("%s %s reply %s" % (G.dump_ty(e[3] if e[3] else ("S", [])), al, fr.hex()))
+                            else:
+                                tlines.append("%s %s reply %s" % (G.dump_ty(m[4]), al, fr.hex()))
+                            tmeta.append((ci, "reply"))
+            if tlines and not bad:
+                tres = V.run_model("typed-check", tlines)
+                for (ci, kind), tl, tr in zip(tmeta, tlines, tres):
+                    ck.count("typed-frames")
+                    if tr != "ok":
+                        ck.tie_broken("a %s frame is not the typed mapping of its declared type (call %d): %s" % (kind, ci, tr[:200]), tl[:600], "frame", tr[:100])
+                        break
             if not bad:
                 gh = []
                 for f in got_h:
